@@ -195,6 +195,32 @@ func c18Check(def *ph.Def, path, text string) []string {
 	if len(req)+len(opt) != len(ls.opts) {
 		out = append(out, fmt.Sprintf("help: the option lists have %d entries for %d options", len(req)+len(opt), len(ls.opts)))
 	}
+	// declared arguments: each named exactly once in the synopsis, and listed once with its description when it has one
+	if lv := ph.FindLevel(def, path); lv != nil {
+		args := doc.entries("ARGUMENTS")
+		for _, a := range lv.SynArgs {
+			if n := strings.Count(syn, a[0]); n != 1 {
+				out = append(out, fmt.Sprintf("help: declared argument %q is named %d times in the synopsis, want exactly once", a[0], n))
+			}
+			if a[1] == "" {
+				continue
+			}
+			n := 0
+			for _, e := range args {
+				if e.head == a[0] || strings.HasPrefix(e.head, a[0]+" ") {
+					n++
+					for _, dl := range strings.Split(a[1], "\n") {
+						if !strings.Contains(e.text, dl) {
+							out = append(out, fmt.Sprintf("help: description line %q of argument %q is missing", dl, a[0]))
+						}
+					}
+				}
+			}
+			if n != 1 {
+				out = append(out, fmt.Sprintf("help: declared argument %q is listed %d times under ARGUMENTS, want exactly once", a[0], n))
+			}
+		}
+	}
 	// commands
 	cmds := doc.entries("COMMANDS")
 	for _, k := range ls.cmds {
@@ -302,15 +328,15 @@ func c18Paths(def *ph.Def) []string {
 }
 
 // the three ways of reaching the help of a level
-func c18Texts(def *ph.Def, path string) (direct, viaOption, viaCommand, viaRoot string, haveOpt, haveCmd, haveRoot bool) {
-	direct = ph.HelpOf(def, nil, path)
+func c18Texts(def *ph.Def, env map[string]string, path string) (direct, viaOption, viaCommand, viaRoot string, haveOpt, haveCmd, haveRoot bool) {
+	direct = ph.HelpOf(def, env, path)
 	var words []string
 	if path != "" {
 		words = strings.Split(path, "/")
 	}
 	// Help() called on the root object after a Parse that selected the level (the caller prints help itself)
 	{
-		p := ph.Build(def, nil)
+		p := ph.Build(def, env)
 		o := p.Run(words, false)
 		if o.Panic == "" && !o.HasErr {
 			viaRoot, _, _ = p.Help()
@@ -334,7 +360,7 @@ func c18Texts(def *ph.Def, path string) (direct, viaOption, viaCommand, viaRoot 
 		}
 	}
 	if !wrapperOnPath {
-		p := ph.Build(def, nil)
+		p := ph.Build(def, env)
 		o := p.Run(append(append([]string{}, words...), "--"+def.Help), true)
 		p.Close()
 		if o.Panic == "" && !o.HasErr {
@@ -356,7 +382,7 @@ func c18Texts(def *ph.Def, path string) (direct, viaOption, viaCommand, viaRoot 
 			}
 		}
 		if len(valued) > 0 && haveOpt {
-			p := ph.Build(def, nil)
+			p := ph.Build(def, env)
 			o := p.Run(append(append(append([]string{}, words...), valued...), "--"+def.Help), true)
 			p.Close()
 			if o.Panic == "" && !o.HasErr && o.WDispatch != viaOption {
@@ -364,7 +390,7 @@ func c18Texts(def *ph.Def, path string) (direct, viaOption, viaCommand, viaRoot 
 			}
 		}
 	}
-	p := ph.Build(def, nil)
+	p := ph.Build(def, env)
 	o := p.Run(append(append([]string{}, words...), def.Help), true)
 	p.Close()
 	if o.Panic == "" && !o.HasErr {
@@ -378,8 +404,8 @@ type c18Case struct {
 	Path string  `json:"path"`
 }
 
-func c18Judge(def *ph.Def, path string, verbose bool) ([]string, int) {
-	direct, viaOpt, viaCmd, viaRoot, haveOpt, haveCmd, haveRoot := c18Texts(def, path)
+func c18Judge(def *ph.Def, env map[string]string, path string, verbose bool) ([]string, int) {
+	direct, viaOpt, viaCmd, viaRoot, haveOpt, haveCmd, haveRoot := c18Texts(def, env, path)
 	if verbose {
 		fmt.Printf("level %q help text:\n%s\n", "/"+path, direct)
 	}
@@ -399,7 +425,7 @@ func c18Judge(def *ph.Def, path string, verbose bool) ([]string, int) {
 	}
 	// the sections of the help are independent of each other: asking for two of them in one call gives the two texts
 	{
-		p := ph.Build(def, nil)
+		p := ph.Build(def, env)
 		for _, pair := range [][2]getoptions.HelpSection{{getoptions.HelpOptionList, getoptions.HelpSynopsis}, {getoptions.HelpSynopsis, getoptions.HelpOptionList}, {getoptions.HelpCommandList, getoptions.HelpSynopsis}} {
 			both := p.LevelHelpSections(path, pair[0], pair[1])
 			a, b := p.LevelHelpSections(path, pair[0]), p.LevelHelpSections(path, pair[1])
@@ -414,7 +440,7 @@ func c18Judge(def *ph.Def, path string, verbose bool) ([]string, int) {
 	if def.Help != "" && path != "" {
 		words := strings.Split(path, "/")
 		argv := append(append(append([]string{}, words[:len(words)-1]...), def.Help), words[len(words)-1])
-		p := ph.Build(def, nil)
+		p := ph.Build(def, env)
 		o := p.Run(argv, true)
 		p.Close()
 		if o.Panic == "" && !o.HasErr {
@@ -436,13 +462,13 @@ func c18Judge(def *ph.Def, path string, verbose bool) ([]string, int) {
 func init() {
 	parserJudges["C18"] = func(pc *parserCase, verbose bool) []string {
 		path, _ := pc.Extra["path"].(string)
-		m, _ := c18Judge(pc.Def, path, verbose)
+		m, _ := c18Judge(pc.Def, pc.Env, path, verbose)
 		return m
 	}
 	register(&Check{
 		ID:        "C18",
 		QuickSecs: 300, ThoroSecs: 300,
-		Rule: "complete finite product: 12 option kinds x alias count {0,1,2} x required x environment binding x description {none, one line, two lines, text with percent signs} for the option of interest inside a three-option program (576 definitions), plus 24 command trees (every kind as inherited root option, commands with descriptions, sub-command, argument declarations, UnsetOptions wrapper, with and without help command) at every level, and the same definitions again with Help() rendered after every declaration step; " +
+		Rule: "complete finite product: 12 option kinds x alias count {0,1,2} x required x environment binding x description {none, one line, two lines, text with percent signs} for the option of interest inside a three-option program (576 definitions), plus 24 command trees (every kind as inherited root option, commands with descriptions, sub-command, argument declarations, UnsetOptions wrapper, with and without help command) at every level, each also with every bound environment variable set to a text that is not a number, and the same definitions again with Help() rendered after every declaration step; " +
 			"each help text is parsed structurally (sections, entries) and checked clause by clause, and the texts reached through the help option (alone and behind options of the level that were given a value), the help command, Help() of the level's object, `help <name>` one level up and Help() of the root object after a Parse that selected the level are compared byte for byte, and Help(section, section) equals the two sections rendered alone; states = definitions x levels, transitions = help texts generated, distinct_nontrivial = distinct help texts",
 		Assume: []string{"the exact layout (padding, wrapping) is not part of the property and is not compared"},
 		Run: func(c *RunCtx) {
@@ -454,24 +480,45 @@ func init() {
 				if !c.mine(i) {
 					continue
 				}
-				for _, path := range c18Paths(def) {
-					res.States++
-					res.Evaluations++
-					msgs, n := c18Judge(def, path, false)
-					res.Transitions += int64(n)
-					res.Traces += int64(n)
-					res.count("help_texts_checked", int64(n))
-					seen[ph.HelpOf(def, nil, path)] = true
-					if path != "" {
-						res.count("command_level_help_texts", 1)
+				// the environment at definition time: nothing set, or every bound variable set to a text that is usable for
+				// strings only (the binding is shown whatever the variable holds)
+				envs := []map[string]string{nil}
+				bound := map[string]string{}
+				var walk func(c *ph.CmdDef)
+				walk = func(c *ph.CmdDef) {
+					for _, o := range c.Opts {
+						if o.Env != "" {
+							bound[o.Env] = "abc"
+						}
 					}
-					if len(msgs) > 0 {
-						pc := parserCase{Check: "C18", Def: def, Extra: map[string]any{"path": path}}
-						raw, _ := jsonMarshal(pc)
-						res.violate(Violation{Prop: "C18", Msg: fmt.Sprintf("%s  [options=%s level=%q]", msgs[0], describeOptsFull(def), "/"+path), Case: raw, Weight: i})
+					for _, k := range c.Cmds {
+						walk(k)
 					}
-					if res.Evaluations%100 == 1 {
-						res.sample(map[string]any{"options": describeOptsFull(def), "level": "/" + path})
+				}
+				walk(&def.Root)
+				if len(bound) > 0 {
+					envs = append(envs, bound)
+				}
+				for _, env := range envs {
+					for _, path := range c18Paths(def) {
+						res.States++
+						res.Evaluations++
+						msgs, n := c18Judge(def, env, path, false)
+						res.Transitions += int64(n)
+						res.Traces += int64(n)
+						res.count("help_texts_checked", int64(n))
+						seen[ph.HelpOf(def, nil, path)] = true
+						if path != "" {
+							res.count("command_level_help_texts", 1)
+						}
+						if len(msgs) > 0 {
+							pc := parserCase{Check: "C18", Def: def, Env: env, Extra: map[string]any{"path": path}}
+							raw, _ := jsonMarshal(pc)
+							res.violate(Violation{Prop: "C18", Msg: fmt.Sprintf("%s  [options=%s env=%v level=%q]", msgs[0], describeOptsFull(def), env, "/"+path), Case: raw, Weight: i})
+						}
+						if res.Evaluations%100 == 1 {
+							res.sample(map[string]any{"options": describeOptsFull(def), "level": "/" + path})
+						}
 					}
 				}
 			}
